@@ -1,10 +1,10 @@
 CONSTANT Aggs <- OneAgg
-CONSTANT Calls <- CallsFive
+CONSTANT Calls <- CallsDup
 CONSTANT InitOut <- InitAbsent
 CONSTANT MaxCrashes = 0
 CONSTANT MaxSessions = 1
 CONSTANT NormalExit = TRUE
-CONSTANT MaxWorkerKills = 0
+CONSTANT MaxWorkerKills = 1
 CONSTANT HeaderOnEmpty = TRUE
 CONSTANT OwnBuffer = TRUE
 CONSTANT HeaderNoClaim = TRUE
@@ -15,8 +15,8 @@ INVARIANT HeaderFirstOnce
 INVARIANT RowsAreSubjects
 INVARIANT SnapOnlyComplete
 INVARIANT LocksConsistent
-INVARIANT ExactlyOnePerSubject
 INVARIANT NoCallFailed
 INVARIANT SiblingsIndependent
 PROPERTY RowsAppendOnly
-PROPERTY AllDone
+INVARIANT NoOrphanedLock
+PROPERTY SurvivorsReturn
